@@ -248,6 +248,7 @@ var c01Atoms = []string{
 	"0", "-0", "1", "-1", "12", "0.5", "-0.5", "1e5", "1E5", "1e+5", "1e-5", "1.5e3", "0e0", "0.0", "-0.0",
 	"01", "-01", "00", "-00", "01.5", "-01.5", "-00.5", "00.5", "0123", "-0123", "001e1", "-000000000000000000001", "000000000000000000001",
 	"1.", "1.e3", ".5", "-.5", "-", "+1", "+", "1e", "1e+", "1e-", "1E+", "e5", "1e5.5", "1.5.5", "1..5", "1ee5", "--1", "-+1", "1-", "1+", "1-1", "1+1",
+	"1e99999999999999999999", "1e9223372036854775807", "0.01e-9223372036854775808", "0e99999999999999999999",
 	"0x10", "0X1", "1_000", "Infinity", "-Infinity", "NaN", "-NaN", "inf", "nan", "1e400", "-1e400", "1e309", "1.8e308", "1.7976931348623159e308", "1e-400",
 	"1f", "1d", "1L", "0b1", "0o7", "1,", ",1", "1 2", "1\x002", "1\x00", "\x001", "123456789012345678901234567890", "9223372036854775808", "18446744073709551616", "-9223372036854775809",
 	"true", "false", "null", "True", "TRUE", "False", "Null", "NULL", "tru", "fals", "nul", "truee", "falsee", "nulll", "true1", "false0", "nullx", "t", "f", "n", "tr", "fa", "nu",
